@@ -329,6 +329,8 @@ class PartitioningPatternEncoder(PatternEncoderBase):
         # Check if all target nodes have 1 connection or 0 or 1 connections
         if any(n.conns != [1] and n.conns != [0, 1] for n in tgt):
             return False
+        if any(n.conns != tgt[0].conns for n in tgt):
+            return False
 
         # Check if there are not too many connections asked for
         n_min_total = src[0].min_conns*len(src)
